@@ -353,8 +353,14 @@ func c13genRaw(r *verifhlib.Rng, maxLen int) (string, *c13cacheDrv, bool) {
 			d.rawRemove(uint64(r.Intn(nNames)))
 		case k < 89:
 			var names []uint64
-			for j := r.Intn(4); j > 0; j-- {
-				names = append(names, uint64(r.Intn(nNames+1)))
+			if r.Chance(40) { // everything, as the TTL worker does when all entries are old
+				for j := 0; j <= nNames; j++ {
+					names = append(names, uint64(j))
+				}
+			} else {
+				for j := r.Intn(4); j > 0; j-- {
+					names = append(names, uint64(r.Intn(nNames+1)))
+				}
 			}
 			d.rawRemoveBatch(names)
 		case k < 95:
@@ -365,6 +371,63 @@ func c13genRaw(r *verifhlib.Rng, maxLen int) (string, *c13cacheDrv, bool) {
 	}
 	coq := fmt.Sprintf("CaseC %d 0 0 %s %s", max, verifhlib.List(rec.ops), verifhlib.List(rec.obs))
 	return coq, d, malformed
+}
+
+// exhaustive small scope (thorough tier): every sequence over a small alphabet of caller / worker
+// moves, resolved against the live protocol state; moves that are not enabled are skipped
+func c13runRawDyn(max uint64, moves []int) (string, *c13cacheDrv) {
+	rec := &c13rec{}
+	var clk int64
+	d := &c13cacheDrv{c: cache.NewBlobMemoryCache(cache.BlobMemoryCacheConfig{MaxSize: max}, tally.NoopScope),
+		rec: rec, name: c13rawName, id: c13rawID, pend: map[uint64]*c13pend{}, nowMs: func() int64 { return clk }}
+	var nextT uint64 = 1
+	pick := func(need, newest bool) (uint64, bool) {
+		var best uint64
+		found := false
+		for t, p := range d.pend {
+			if p.needRel != need {
+				continue
+			}
+			if !found || (newest && t > best) || (!newest && t < best) {
+				best, found = t, true
+			}
+		}
+		return best, found
+	}
+	for _, m := range moves {
+		switch m {
+		case 0:
+			d.reserve(nextT, 0, 6)
+			nextT++
+		case 1:
+			d.reserve(nextT, 0, 5)
+			nextT++
+		case 2:
+			if t, ok := pick(false, false); ok {
+				d.end(t, false, d.pend[t].sz)
+			}
+		case 3:
+			if t, ok := pick(false, false); ok {
+				d.end(t, true, 0)
+			}
+		case 4:
+			if t, ok := pick(false, true); ok {
+				d.end(t, false, d.pend[t].sz)
+			}
+		case 5:
+			if t, ok := pick(true, false); ok {
+				d.release(t)
+			}
+		case 6:
+			d.rawRemove(0)
+		case 7:
+			if t, ok := pick(false, false); ok {
+				d.end(t, false, d.pend[t].sz+1)
+			}
+		}
+	}
+	coq := fmt.Sprintf("CaseC %d 0 0 %s %s", max, verifhlib.List(rec.ops), verifhlib.List(rec.obs))
+	return coq, d
 }
 
 // ------------------------------------------------------------------ stream 2: CAStore write-through
@@ -867,10 +930,30 @@ func c13driver(ctx *verifhlib.Ctx) {
 	emitLru(2, 30*time.Millisecond, 4, []c13lop{{k: "add", key: 0}, {k: "sleep", sleep: 20 * time.Millisecond}, {k: "add", key: 1}, {k: "has", key: 0}, {k: "sleep", sleep: 20 * time.Millisecond}, {k: "has", key: 0}, {k: "has", key: 1}, {k: "size"}, {k: "add", key: 2}, {k: "size"}, {k: "sleep", sleep: 40 * time.Millisecond}, {k: "add", key: 3}, {k: "size"}}, "seed-lru-expiry")
 
 	// ---- generated
-	nRaw, nWt, nLru, nTimed := ctx.N*45/100, ctx.N*30/100, ctx.N*20/100, ctx.N*5/100
+	nRaw, nWt, nLru, nTimed := ctx.N*42/100, ctx.N*30/100, ctx.N*18/100, ctx.N*10/100
 	rawLen, wtLen, lruLen := 30, 12, 30
 	if thorough {
 		rawLen, wtLen, lruLen = 80, 25, 60
+	}
+	if thorough {
+		seen := map[string]bool{}
+		var rec func(prefix []int, depth int)
+		rec = func(prefix []int, depth int) {
+			if len(prefix) > 0 {
+				coq, d := c13runRawDyn(10, prefix)
+				if len(d.rec.ops) > 0 && !seen[coq] {
+					seen[coq] = true
+					ctx.Emit(verifhlib.Case{Coq: coq, NT: d.adds >= 1 && d.removes >= 1, Kind: "raw-exhaustive", Hist: d.rec.hist})
+				}
+			}
+			if depth == 0 {
+				return
+			}
+			for m := 0; m < 8; m++ {
+				rec(append(append([]int{}, prefix...), m), depth-1)
+			}
+		}
+		rec(nil, 5)
 	}
 	for i := 0; i < nRaw; i++ {
 		coq, d, malformed := c13genRaw(r, rawLen)
@@ -910,7 +993,7 @@ func c13driver(ctx *verifhlib.Ctx) {
 		ts[i] = &timed{size: size, ttl: ttl, nk: nk, ops: ops}
 	}
 	var wg sync.WaitGroup
-	sem := make(chan struct{}, 8)
+	sem := make(chan struct{}, 16)
 	for _, x := range ts {
 		wg.Add(1)
 		go func(x *timed) {
